@@ -127,7 +127,7 @@ Theorem go_transform_is_model : forall block,
   go_TransformToReturnBlock block = IOk [] (transform block).
 Proof.
   intros block _. unfold go_TransformToReturnBlock. rewrite go_reverse_all.
-  unfold go_len. replace (Z.to_nat (Z.of_nat (length (rev block)) - 0)) with (length (rev block)) by lia.
+  unfold go_len. replace (Z.to_nat (Z.of_nat (length (rev block)) - 0 - 0)) with (length (rev block)) by lia.
   change 0%Z with (Z.of_nat 0). rewrite (transform_loop (rev block) (length (rev block)) 0); [|lia|lia|constructor].
   cbn [skipn]. reflexivity.
 Qed.
@@ -331,7 +331,7 @@ Proof.
   (* the scan *)
   destruct (scan_loop b1 (Z.of_N ret) 0%Z (Z.of_N next) n vn (length b1) 0 (Z.of_N next =? 0)%Z (len - 1))
     as [seen' Hscan]; [lia|lia|].
-  replace (Z.to_nat (Z.of_nat len - 0)) with (length b1) by lia.
+  replace (Z.to_nat (Z.of_nat len - 0 - 0)) with (length b1) by lia.
   replace (Z.of_nat len - 0 - 1)%Z with (Z.of_nat (len - 1)) by lia.
   change (Z.of_nat 0) with 0%Z in Hscan. rewrite Hscan. cbn [skipn].
   replace (Z.of_N next =? 0)%Z with (next =? 0) by lia.
@@ -359,7 +359,7 @@ Proof.
   replace (skipn len all) with (@nil N) by (symmetry; apply skipn_all2; lia).
   destruct (N.ltb_spec 0 ret) as [Hr|Hr].
   - replace (0 <? Z.of_N ret)%Z with true by lia. cbn [andb].
-    replace (Z.to_nat (Z.of_nat start + Z.of_nat (length (enc ret)) - Z.of_nat start)) with (length (enc ret)) by lia.
+    replace (Z.to_nat (Z.of_nat start + Z.of_nat (length (enc ret)) - Z.of_nat start - 0)) with (length (enc ret)) by lia.
     change 0%Z with (Z.of_nat 0) at 1.
     rewrite zero_loop; [|lia|lia|unfold go_len; rewrite Hall; rewrite (enc_length ret Hret); lia|lia|lia].
     cbn [skipn].
